@@ -411,6 +411,12 @@ def register_env(reg):
         f = ex.w.fun("str_upper", "str", "str")
         return ex.o.str_(f(ex.o.s(args[0])))
 
+    @reg.specfun("env_value")
+    def env_value(ex, st, args, cx):
+        """what Field._get_env_value(cfg) returns (None when unbound or empty; the validated value otherwise): defined by
+        that function's outcome, deterministic during one construction"""
+        return SV(ex.w.fun("spec_env_value", "V", "V", "V")(args[0].e, args[1].e))
+
     @reg.specfun("env_get")
     def env_get(ex, st, args, cx):
         v = z3.Select(st.g("env"), ex.o.s(args[0]))
